@@ -213,6 +213,8 @@ impl<I: Interner> Forest<I> {
             goal,
         );
         let table = Self::build_table(context, self.tables.next_index(), goal);
+        #[cfg(chalk_verif)]
+        crate::verif::ev_table_new(self.tables.next_index(), &table);
         self.tables.insert(table)
     }
 
@@ -461,6 +463,13 @@ pub(crate) struct SolveState<'forest, I: Interner> {
 
 impl<'forest, I: Interner> Drop for SolveState<'forest, I> {
     fn drop(&mut self) {
+        #[cfg(chalk_verif)]
+        if !self.stack.is_empty() {
+            let verif_active = self.stack.top().active_strand.is_some();
+            chalk_ir::verif::emit("DropState", |f| {
+                f.bool("active", verif_active);
+            });
+        }
         if !self.stack.is_empty() {
             if let Some(active_strand) = self.stack.top().active_strand.take() {
                 let table = self.stack.top().table;
@@ -507,6 +516,13 @@ impl<'forest, I: Interner> SolveState<'forest, I> {
 
         self.stack
             .push(initial_table, Minimums::MAX, self.forest.increment_clock());
+        #[cfg(chalk_verif)]
+        {
+            let verif_clock = crate::verif::ts(self.forest.clock);
+            chalk_ir::verif::emit("Push", |f| {
+                f.int("table", initial_table.value).int("clock", verif_clock);
+            });
+        }
         loop {
             let clock = self.stack.top().clock;
             // If we had an active strand, continue to pursue it
@@ -518,6 +534,8 @@ impl<'forest, I: Interner> SolveState<'forest, I> {
             // We also know that if the first strand has been pursued at this depth,
             // then all have. Otherwise, an answer to any strand would have provided an
             // answer for the table.
+            #[cfg(chalk_verif)]
+            let verif_had_active = self.stack.top().active_strand.is_some();
             let forest = &mut self.forest;
             let next_strand = self.stack.top().active_strand.take().or_else(|| {
                 forest.tables[table].dequeue_next_strand_that(|strand| {
@@ -530,6 +548,22 @@ impl<'forest, I: Interner> SolveState<'forest, I> {
                     time_eligble && mode_eligble
                 })
             });
+            #[cfg(chalk_verif)]
+            {
+                let verif_src = if verif_had_active {
+                    "active"
+                } else if next_strand.is_some() {
+                    "queue"
+                } else {
+                    "none"
+                };
+                let verif_strand = next_strand.as_ref().map(crate::verif::strand_json);
+                chalk_ir::verif::emit("Take", |f| {
+                    f.int("table", table.value)
+                        .str("src", verif_src)
+                        .raw("strand", &format!("[{}]", verif_strand.unwrap_or_default()));
+                });
+            }
             match next_strand {
                 Some(mut canonical_strand) => {
                     debug!("starting next strand = {:#?}", canonical_strand);
@@ -604,6 +638,8 @@ impl<'forest, I: Interner> SolveState<'forest, I> {
                 // The selected subgoal returned an ambiguous answer, but we don't want that.
                 // So, we treat this subgoal as floundered.
                 let selected_subgoal = strand.selected_subgoal.take().unwrap();
+                #[cfg(chalk_verif)]
+                crate::verif::note_merge_kind("ambflounder");
                 self.flounder_subgoal(&mut strand.ex_clause, selected_subgoal.subgoal_index);
                 return Ok(());
             }
@@ -635,6 +671,8 @@ impl<'forest, I: Interner> SolveState<'forest, I> {
                 let table = self.stack.top().table;
                 let canonical_next_strand =
                     Forest::canonicalize_strand_from(self.context, infer, &next_strand);
+                #[cfg(chalk_verif)]
+                crate::verif::note_merge_next(&canonical_next_strand);
                 self.forest.tables[table].enqueue_strand(canonical_next_strand);
             }
         }
@@ -695,6 +733,8 @@ impl<'forest, I: Interner> SolveState<'forest, I> {
                     // `QuantumExceeded`.
                     Err(NoSolution) => {
                         info!("answer not unifiable -> NoSolution");
+                        #[cfg(chalk_verif)]
+                        crate::verif::ev_merge("unifyfail", None);
                         // This strand as no solution. It is no longer active,
                         // so it dropped at the end of this scope.
 
@@ -730,6 +770,8 @@ impl<'forest, I: Interner> SolveState<'forest, I> {
                     // have an unconditional answer for the subgoal,
                     // therefore we have failed to disprove it.
                     info!("found unconditional answer to neg literal -> NoSolution");
+                    #[cfg(chalk_verif)]
+                    crate::verif::ev_merge("negfail", None);
 
                     // This strand as no solution. By returning an Err,
                     // the caller should discard this `Strand`.
@@ -746,6 +788,8 @@ impl<'forest, I: Interner> SolveState<'forest, I> {
                 // have an unconditional answer for the subgoal,
                 // therefore we have failed to disprove it.
                 debug!(?strand, "Marking Strand as ambiguous because answer to (negative) subgoal was ambiguous");
+                #[cfg(chalk_verif)]
+                crate::verif::note_merge_kind("negamb");
                 strand.ex_clause.ambiguous = true;
 
                 // Strand is ambigious.
@@ -777,6 +821,10 @@ impl<'forest, I: Interner> SolveState<'forest, I> {
                 // floundered list, along with the time that it
                 // floundered. We'll try to solve some other subgoals
                 // and maybe come back to it.
+                #[cfg(chalk_verif)]
+                chalk_ir::verif::emit("SubFloundered", |f| {
+                    f.bool("pos", true);
+                });
                 self.flounder_subgoal(&mut strand.value.ex_clause, selected_subgoal.subgoal_index);
 
                 false
@@ -798,6 +846,10 @@ impl<'forest, I: Interner> SolveState<'forest, I> {
                 // Here, the table we will be searching for answers is
                 // `?T: Debug`, so it could well flounder.
 
+                #[cfg(chalk_verif)]
+                chalk_ir::verif::emit("SubFloundered", |f| {
+                    f.bool("pos", false);
+                });
                 // This strand has no solution. It is no longer active,
                 // so it dropped at the end of this scope.
 
@@ -840,6 +892,8 @@ impl<'forest, I: Interner> SolveState<'forest, I> {
                     .delayed_subgoals
                     .push(subgoal);
 
+                #[cfg(chalk_verif)]
+                crate::verif::ev_strand("CycleCo", &canonical_strand);
                 self.stack.top().active_strand = Some(canonical_strand);
                 Ok(())
             }
@@ -891,6 +945,14 @@ impl<'forest, I: Interner> SolveState<'forest, I> {
         //
         // We also can't mark these and return early from this
         // because the stack above us might change.
+        #[cfg(chalk_verif)]
+        {
+            let verif_m = self.stack.top().cyclic_minimums;
+            chalk_ir::verif::emit("CyclePos", |f| {
+                f.int("minPos", crate::verif::ts(verif_m.positive))
+                    .int("minNeg", crate::verif::ts(verif_m.negative));
+            });
+        }
         let table = self.stack.top().table;
         self.forest.tables[table].enqueue_strand(canonical_strand);
 
@@ -952,6 +1014,11 @@ impl<'forest, I: Interner> SolveState<'forest, I> {
                     debug!(?strand, "merged answer into current strand");
                     canonical_strand =
                         Forest::canonicalize_strand_from(self.context, &mut infer, &strand);
+                    #[cfg(chalk_verif)]
+                    crate::verif::ev_merge(
+                        crate::verif::take_merge_kind(),
+                        Some(crate::verif::strand_json(&canonical_strand)),
+                    );
                     self.stack.top().active_strand = Some(canonical_strand);
                     return Ok(());
                 }
@@ -993,6 +1060,13 @@ impl<'forest, I: Interner> SolveState<'forest, I> {
             cyclic_minimums,
             self.forest.increment_clock(),
         );
+        #[cfg(chalk_verif)]
+        {
+            let verif_clock = crate::verif::ts(self.forest.clock);
+            chalk_ir::verif::emit("Push", |f| {
+                f.int("table", subgoal_table.value).int("clock", verif_clock);
+            });
+        }
         Ok(())
     }
 
@@ -1009,6 +1083,8 @@ impl<'forest, I: Interner> SolveState<'forest, I> {
             if ambiguous {
                 // The strand can only return an ambiguous answer, but we don't
                 // want that right now, so requeue and we'll deal with it later.
+                #[cfg(chalk_verif)]
+                chalk_ir::verif::emit("Requeue", |_| {});
                 self.forest.tables[self.stack.top().table].enqueue_strand(canonical_strand);
                 return NoRemainingSubgoalsResult::RootSearchFail(RootSearchFail::QuantumExceeded);
             }
@@ -1033,6 +1109,8 @@ impl<'forest, I: Interner> SolveState<'forest, I> {
                 let table = self.stack.top().table;
                 match self.stack.pop_and_take_caller_strand() {
                     Some(caller_strand) => {
+                        #[cfg(chalk_verif)]
+                        chalk_ir::verif::emit("PopToCaller", |_| {});
                         self.stack.top().active_strand = Some(caller_strand);
                         NoRemainingSubgoalsResult::Success
                     }
@@ -1050,9 +1128,13 @@ impl<'forest, I: Interner> SolveState<'forest, I> {
 
                         let answer = self.forest.answer(table, answer_index);
                         if let Some(strand) = self.create_refinement_strand(table, answer) {
+                            #[cfg(chalk_verif)]
+                            crate::verif::ev_strand("Refine", &strand);
                             self.forest.tables[table].enqueue_strand(strand);
                         }
 
+                        #[cfg(chalk_verif)]
+                        chalk_ir::verif::emit("RootAnswer", |_| {});
                         NoRemainingSubgoalsResult::RootAnswerAvailable
                     }
                 }
@@ -1157,6 +1239,8 @@ impl<'forest, I: Interner> SolveState<'forest, I> {
                 None => {
                     // T was the root table, so we are done.
                     debug!("no more solutions");
+                    #[cfg(chalk_verif)]
+                    chalk_ir::verif::emit("FailRoot", |_| {});
                     return Err(RootSearchFail::NoMoreSolutions);
                 }
             };
@@ -1171,6 +1255,8 @@ impl<'forest, I: Interner> SolveState<'forest, I> {
                 // has failed and can be discarded.
                 Literal::Positive(_) => {
                     debug!("discarding strand because positive literal");
+                    #[cfg(chalk_verif)]
+                    chalk_ir::verif::emit("FailPos", |_| {});
                     self.stack.top().active_strand.take();
                     self.unwind_stack();
                     Err(RootSearchFail::QuantumExceeded)
@@ -1179,6 +1265,8 @@ impl<'forest, I: Interner> SolveState<'forest, I> {
                 // T' wanted there to be no answer from T, but none is forthcoming.
                 Literal::Negative(_) => {
                     debug!("subgoal was proven because negative literal");
+                    #[cfg(chalk_verif)]
+                    chalk_ir::verif::emit("FailNeg", |_| {});
 
                     // There is no solution for this strand. But, this
                     // is what we want, so can remove this subgoal and
@@ -1199,6 +1287,8 @@ impl<'forest, I: Interner> SolveState<'forest, I> {
         // all strands, not just non-ambiguous ones. See chalk#571.
         if let AnswerMode::Complete = self.forest.tables[table].answer_mode {
             debug!("Allowing ambiguous answers.");
+            #[cfg(chalk_verif)]
+            chalk_ir::verif::emit("SwitchMode", |_| {});
             self.forest.tables[table].answer_mode = AnswerMode::Ambiguous;
             return Err(RootSearchFail::QuantumExceeded);
         }
@@ -1210,6 +1300,8 @@ impl<'forest, I: Interner> SolveState<'forest, I> {
 
             if cyclic_minimums.negative < TimeStamp::MAX {
                 // This is a negative cycle.
+                #[cfg(chalk_verif)]
+                chalk_ir::verif::emit("NegCycle", |_| {});
                 self.unwind_stack();
                 return Err(RootSearchFail::NegativeCycle);
             }
@@ -1221,6 +1313,13 @@ impl<'forest, I: Interner> SolveState<'forest, I> {
             let table = self.stack.top().table;
             let cyclic_strands = self.forest.tables[table].take_strands();
             self.clear_strands_after_cycle(cyclic_strands);
+            #[cfg(chalk_verif)]
+            {
+                let verif_cleared = crate::verif::take_cleared();
+                chalk_ir::verif::emit("CycleComplete", |f| {
+                    f.raw("cleared", &verif_cleared);
+                });
+            }
 
             // Now we yield with `QuantumExceeded`
             self.unwind_stack();
@@ -1261,6 +1360,14 @@ impl<'forest, I: Interner> SolveState<'forest, I> {
                 }
             }
 
+            #[cfg(chalk_verif)]
+            {
+                let verif_m = self.stack.top().cyclic_minimums;
+                chalk_ir::verif::emit("PartOfCycle", |f| {
+                    f.int("minPos", crate::verif::ts(verif_m.positive))
+                        .int("minNeg", crate::verif::ts(verif_m.negative));
+                });
+            }
             // We can't pursue this strand anymore, so push it back onto the table
             let active_strand = self.stack.top().active_strand.take().unwrap();
             let table = self.stack.top().table;
@@ -1305,6 +1412,8 @@ impl<'forest, I: Interner> SolveState<'forest, I> {
             });
 
             let strand_table = selected_subgoal.subgoal_table;
+            #[cfg(chalk_verif)]
+            crate::verif::note_cleared(strand_table);
             let strands = self.forest.tables[strand_table].take_strands();
             self.clear_strands_after_cycle(strands);
         }
@@ -1320,10 +1429,14 @@ impl<'forest, I: Interner> SolveState<'forest, I> {
                         .floundered_subgoals
                         .is_empty()
                     {
+                        #[cfg(chalk_verif)]
+                        chalk_ir::verif::emit("NotSelected", |_| {});
                         return SubGoalSelection::NotSelected;
                     }
 
                     self.reconsider_floundered_subgoals(&mut canonical_strand.value.ex_clause);
+                    #[cfg(chalk_verif)]
+                    crate::verif::ev_strand("Reconsider", canonical_strand);
 
                     if canonical_strand.value.ex_clause.subgoals.is_empty() {
                         // All the subgoals of this strand floundered. We may be able
@@ -1334,6 +1447,8 @@ impl<'forest, I: Interner> SolveState<'forest, I> {
                             .ex_clause
                             .floundered_subgoals
                             .is_empty());
+                        #[cfg(chalk_verif)]
+                        chalk_ir::verif::emit("AllFloundered", |_| {});
                         canonical_strand.value.ex_clause.ambiguous = true;
                         return SubGoalSelection::NotSelected;
                     }
@@ -1365,6 +1480,10 @@ impl<'forest, I: Interner> SolveState<'forest, I> {
                             universe_map,
                             answer_index: AnswerIndex::ZERO,
                         });
+                        #[cfg(chalk_verif)]
+                        chalk_ir::verif::emit("Select", |f| {
+                            f.int("idx", subgoal_index + 1).int("table", subgoal_table.value);
+                        });
                     }
 
                     None => {
@@ -1372,6 +1491,10 @@ impl<'forest, I: Interner> SolveState<'forest, I> {
                         // that is because we have a floundered negative
                         // literal.
                         self.flounder_subgoal(&mut canonical_strand.value.ex_clause, subgoal_index);
+                        #[cfg(chalk_verif)]
+                        chalk_ir::verif::emit("FlounderLit", |f| {
+                            f.int("idx", subgoal_index + 1);
+                        });
                     }
                 }
             }
@@ -1458,6 +1581,8 @@ impl<'forest, I: Interner> SolveState<'forest, I> {
             self.context.max_size(),
             &subst,
         ) {
+            #[cfg(chalk_verif)]
+            chalk_ir::verif::emit("AnswerTooLarge", |_| {});
             self.forest.tables[table].mark_floundered();
             return None;
         }
@@ -1560,6 +1685,21 @@ impl<'forest, I: Interner> SolveState<'forest, I> {
                     .is_empty(self.context.program().interner())
         };
 
+        #[cfg(chalk_verif)]
+        let verif_answer = (
+            chalk_ir::verif::fp(&answer.subst),
+            answer
+                .subst
+                .value
+                .delayed_subgoals
+                .iter()
+                .map(|d| format!("\"{}\"", chalk_ir::verif::fp(d)))
+                .collect::<Vec<_>>()
+                .join(","),
+            self.forest.tables[table]
+                .table_goal
+                .is_trivial_substitution(self.context.program().interner(), &answer.subst),
+        );
         if let Some(answer_index) = self.forest.tables[table].push_answer(answer) {
             // See above, if we have a *complete* and trivial answer, we don't
             // want to follow any more strands
@@ -1567,9 +1707,22 @@ impl<'forest, I: Interner> SolveState<'forest, I> {
                 self.forest.tables[table].take_strands();
             }
 
+            #[cfg(chalk_verif)]
+            chalk_ir::verif::emit("AnswerNew", |f| {
+                f.int("idx", crate::verif::answer_index_value(answer_index))
+                    .bool("amb", ambiguous)
+                    .bool("trivial", is_trivial_answer)
+                    .bool("trivsub", verif_answer.2)
+                    .str("key", &verif_answer.0)
+                    .raw("del", &format!("[{}]", verif_answer.1));
+            });
             Some(answer_index)
         } else {
             info!("answer: not a new answer, returning None");
+            #[cfg(chalk_verif)]
+            chalk_ir::verif::emit("AnswerDup", |f| {
+                f.str("key", &verif_answer.0);
+            });
             None
         }
     }
